@@ -513,6 +513,9 @@ func c16Gen() *rapid.Generator[c16Case] {
 				c.Usage = "flag of another subcommand"
 			}
 		}
+		if c.Stdout == "tty" && !ptyOK() {
+			c.Stdout = "pipe"
+		}
 		// --watch: without a file to watch (stdin) it has no effect; with a file that cannot be opened the command fails
 		// (a watched file that exists is followed until the process is killed: part `watch`)
 		if (c.Sub == "output" || c.Sub == "o" || c.Sub == "out") && (c.Input == "stdin" || c.Input == "dash" || c.Input == "missing") && rapid.IntRange(0, 7).Draw(t, "watch") == 0 {
